@@ -350,7 +350,7 @@ def design_check(pid, tier, kinds, over=None, invs=ALL_INV, props=ALL_PROP, time
             f.write('  %s = %s\n' % (k, v) if k not in ('NBlocks',) else '  %s <- %s\n' % (k, v))
         f.write('  FrameKinds = {%s}\n' % ', '.join('"%s"' % k for k in kinds))
         f.write('VIEW MCView\nCONSTRAINT QBound\nINVARIANTS %s\nPROPERTIES %s\nCHECK_DEADLOCK FALSE\n' % (invs, props))
-    res = run_tlc('MC_Swarm', cfg, pid, workers=int(os.environ.get('VERIF_WORKERS', 8 if tier == 'quick' else 14)), timeout=timeout if tier == 'quick' else int(os.environ.get('VERIF_DESIGN_TIMEOUT', 4 * 3600)), coverage=True, tag='design', xmx='12g' if tier == 'quick' else '24g')
+    res = run_tlc('MC_Swarm', cfg, pid, workers=int(os.environ.get('VERIF_WORKERS', 8 if tier == 'quick' else 14)), timeout=timeout if tier == 'quick' else int(os.environ.get('VERIF_DESIGN_TIMEOUT', 5400)), coverage=True, tag='design', xmx='12g' if tier == 'quick' else '24g')
     if res['violation']:
         import re
         m = re.search(r'(Invariant|property) (\w+) is violated', res['stdout'])
@@ -643,9 +643,9 @@ def check_c13(tier, replay=None):
 def check_c14(tier, replay=None):
     m = mult(tier)
     plan = [(G.choking, 20 * m, {}), (G.slots, 10 * m, {}), (G.rotation_race, 16 * m, {}), (G.optimistic, 5 * m, {})]
-    return swarm_check('C14', tier, plan, need_actions=('MRotate', 'MBitfield', 'HBroadState'), kinds= ['Bitfield', 'Interested'] if tier == 'quick' else ['Bitfield', 'Interested', 'NotInterested'],
+    return swarm_check('C14', tier, plan, need_actions=('MRotate', 'MBitfield', 'HBroadState'), kinds= ['Bitfield', 'Interested'],
                        design_over=dict(Peers='{a, b}', NPieces=1, NBlocks='N1', TickFuel=1, Fuel=2, MaxUnchoked=1, BFMenu='{{1}}', OptRounds=1) if tier == 'quick'
-                       else dict(Peers='{a, b, c}', NPieces=1, NBlocks='N1', TickFuel=1, Fuel=2, MaxUnchoked=1, BFMenu='{{1}}'),
+                       else dict(Peers='{a, b, c}', NPieces=1, NBlocks='N1', TickFuel=1, Fuel=1, MaxUnchoked=1, BFMenu='{{1}}', OptRounds=1, MaxQ=2),   # 6.3 M states, 8 min
                        extra_oracles=[oracle_c14], vacuity={'rotations_executed': 10}, replay=replay,
                        rule='C14: 3-14 peers against the real limits (10 + 1), interest flips, injected rate vectors with ties, bitfield bursts, 3-5 rotations; SlotBound in every '
                             'state, RotationPolicy on every executed rotation, ViewAgreement at quiescent states, last Choke/Unchoke on the wire against the manager.')
